@@ -129,6 +129,25 @@ Proof.
   - intros v Ha Hp. rewrite <- H2. now apply check_option_rejects.
 Qed.
 
+(** Option strings of the primitive steps ([inexact_gradient_step(notion=)], [inexact_proximal_step(opt=)]):
+    the dispatch `if p == "a": .. elif .. else: raise ValueError` is a top-level statement of the step, its
+    else branch raises ValueError, and NO `return` precedes it in the function -- so no path accepts an
+    invalid literal; these are the only `raise ValueError` sites of PEPit/primitive_steps. *)
+Theorem C16_step_options :
+  map (fun d => snd (fst d)) step_option_dispatches = ["inexact_gradient_step:notion"; "inexact_proximal_step:opt"]
+  /\ forallb step_dispatch_ok step_option_dispatches = true
+  /\ (forall d v, In d step_option_dispatches ->
+                  existsb (String.eqb v) (accepted (snd d)) = false -> check_option (snd d) v = Raise ValueError).
+Proof.
+  destruct gen_step_dispatches as [H1 H2]. split; [exact H1|]. split; [exact H2|].
+  intros d v Hin Ha. rewrite forallb_forall in H2. specialize (H2 d Hin). unfold step_dispatch_ok in H2.
+  apply andb_true_iff in H2. destruct H2 as [He _]. apply exn_eqb_eq in He. rewrite <- He.
+  apply check_option_rejects; [exact Ha|].
+  assert (Hp : forallb (fun d => match prefixes (snd d) with [] => true | _ => false end) step_option_dispatches = true)
+    by (vm_compute; reflexivity).
+  rewrite forallb_forall in Hp. specialize (Hp d Hin). destruct (prefixes (snd d)); [reflexivity|discriminate].
+Qed.
+
 (** Non-vacuity.  (x0 - xs)^2 <= 1 with unvalued leaves raises ValueError from every accessor; with valued
     leaves it has a value; a successful solve assigns duals then values and returns a number; invalid
     options are rejected, valid ones accepted. *)
@@ -159,3 +178,4 @@ Print Assumptions C16_accessors_complete.
 Print Assumptions C16_none.
 Print Assumptions C16_none_generic.
 Print Assumptions C16_options.
+Print Assumptions C16_step_options.
